@@ -57,7 +57,14 @@ where
         let input = self.as_ref();
         let mut result: Vec<u8> = Vec::with_capacity(input.len() * 3 / 4);
 
-        for group in input.as_bytes().chunks(4) {
+        // Base64 text is a whole number of four-symbol groups
+        if input.len() % 4 != 0 {
+            return Err(());
+        }
+
+        let group_count = input.len() / 4;
+
+        for (group_index, group) in input.as_bytes().chunks(4).enumerate() {
             let mut decoded: u32 = 0;
             let mut broken: usize = 4;
 
@@ -68,7 +75,11 @@ where
                     b'0'..=b'9' => decoded |= ((tem - b'0' + 52) as u32) << (6 * (3 - i)),
                     b'+' => decoded |= 62_u32 << (6 * (3 - i)),
                     b'/' => decoded |= 63_u32 << (6 * (3 - i)),
-                    b'=' => {
+                    // Padding may only end the final group, after at least two symbols
+                    b'=' if group_index + 1 == group_count
+                        && i >= 2
+                        && group[i..].iter().all(|b| *b == b'=') =>
+                    {
                         broken = i;
                         break;
                     }
